@@ -54,6 +54,13 @@ pub fn probes_for(model: &Zone, seed: u64, thorough: bool) -> Probes {
             starts.push(t);
         }
     }
+    // iterator starts with a fractional second right around candidate changes (T-0.5s, T+1ns, T+0.999999999s):
+    // the boundary of "strictly before/after" for explicit and for rule-generated transitions alike
+    let frac: Vec<Timestamp> = raw.iter().filter(|(_, ns)| *ns != 0).filter_map(|&(s, ns)| ts_floor(s, ns)).collect();
+    let step = (frac.len() / 9).max(1);
+    for t in frac.iter().step_by(step).take(9) {
+        starts.push(*t);
+    }
     Probes { instants, civils, starts }
 }
 
